@@ -139,6 +139,15 @@ def pandas_case(run, rng):
     if v.accept is None or not v.rows_known or C.has_dup_labels(table):
         run.count("undecided:model_not_exact")
         return
+    if spec["kind"] == "frame" and spec.get("dtype") and (
+            spec.get("coerce") or any(c.get("coerce") for c in spec["columns"])):
+        # a dataframe-level dtype with any coercion coerces EVERY column of the
+        # frame (also undeclared ones, lossily: 0.5 -> 0) and overrides the
+        # columns' own dtypes; the model's "typed" table does not describe
+        # that, and the docs do not say whether a column-level coerce may
+        # trigger it -> not judged (found by the thorough tier only)
+        run.count("undecided:frame-dtype-with-coercion-coerces-every-column")
+        return
     idx = data.index
     if not idx.is_unique or (idx.hasnans if not isinstance(idx, pd.MultiIndex) else
                              any(idx.get_level_values(i).hasnans for i in range(idx.nlevels))):
